@@ -157,4 +157,60 @@ mod verif_c17 {
         assert!(d.get().is_none());
         assert_eq!(*d.get_or_init(|u| *u + 1), 1);
     }
+
+    // The instant the once completes, any other thread may call get(): the final value must already be in
+    // place then (S2: once_cell's completion is the linearisation point of the initialisation).
+    type CellND = OnceInitCell<u8, (Tk, Box<u8>)>;
+    static mut OBSERVED_CELL: Option<*const CellND> = None;
+    static mut EXPECTED: u8 = 0;
+    static mut OBSERVED: bool = false;
+    fn other_thread_gets() {
+        unsafe {
+            let cell = &*OBSERVED_CELL.unwrap();
+            match cell.get() {
+                Some(v) => { assert!(v.0 .1 == EXPECTED && *v.1 == EXPECTED, "get() returned a reference before the final value was in place"); }
+                None => assert!(false, "the cell is initialised but get() says it is not"),
+            }
+            OBSERVED = true;
+        }
+    }
+
+    // @h name=c17_value_in_place_when_once_completes tier=quick timeout=600
+    #[kani::proof]
+    #[kani::unwind(5)]
+    fn c17_value_in_place_when_once_completes() {
+        let s0: u8 = kani::any();
+        let cell: CellND = OnceInitCell::new(s0);
+        unsafe { OBSERVED_CELL = Some(&cell as *const CellND); EXPECTED = s0 ^ 0x55; once_cell::ON_INIT_DONE = Some(other_thread_gets); }
+        let v = cell.get_or_init(|u| (Tk(1, *u ^ 0x55), Box::new(*u ^ 0x55)));
+        assert!(v.0 .1 == s0 ^ 0x55 && unsafe { OBSERVED });
+        unsafe { once_cell::ON_INIT_DONE = None; }
+        std::mem::forget(cell);
+    }
+
+    // same for the drop path (seed with a destructor)
+    type CellD = OnceInitCell<(Tk, Box<u8>), (Tk, Box<u8>)>;
+    static mut OBSERVED_CELL_D: Option<*const CellD> = None;
+    fn other_thread_gets_d() {
+        unsafe {
+            let cell = &*OBSERVED_CELL_D.unwrap();
+            match cell.get() {
+                Some(v) => { assert!(v.0 .1 == EXPECTED && *v.1 == EXPECTED, "get() returned a reference before the final value was in place"); }
+                None => assert!(false, "the cell is initialised but get() says it is not"),
+            }
+            OBSERVED = true;
+        }
+    }
+    // @h name=c17_value_in_place_drop_path tier=quick timeout=600
+    #[kani::proof]
+    #[kani::unwind(5)]
+    fn c17_value_in_place_drop_path() {
+        let s0: u8 = kani::any();
+        let cell: CellD = OnceInitCell::new((Tk(0, s0), Box::new(s0)));
+        unsafe { OBSERVED_CELL_D = Some(&cell as *const CellD); EXPECTED = s0 ^ 0x55; once_cell::ON_INIT_DONE = Some(other_thread_gets_d); }
+        let v = cell.get_or_init(|u| (Tk(1, u.0 .1 ^ 0x55), Box::new(u.0 .1 ^ 0x55)));
+        assert!(v.0 .1 == s0 ^ 0x55 && unsafe { OBSERVED });
+        unsafe { once_cell::ON_INIT_DONE = None; }
+        std::mem::forget(cell);
+    }
 }
